@@ -1,11 +1,11 @@
 package main
 
 import (
-	"os"
 	"encoding/binary"
 	"fmt"
 	"math/rand"
 	"net"
+	"os"
 	"path/filepath"
 	"strconv"
 	"strings"
@@ -186,10 +186,10 @@ func streamC12(env *runEnv) {
 		if cf.mode == "signed" {
 			now := time.Now().Unix()
 			for _, qt := range []struct {
-				key         string
-				iss, sub    string
-				exp         int64
-				term        string
+				key      string
+				iss, sub string
+				exp      int64
+				term     string
 			}{
 				{c12QueryKey, "rdpgw-query", addrs[0], now + 300, "C:HS256:Q"},
 				{c12QueryKey, "rdpgw-query", addrs[1], now + 300, "C:HS256:Q"},
